@@ -265,6 +265,19 @@ def main(argv=None):
         else:
             real_viol.append(v)
     printed = set()
+    # every listed finding that carries a witness is replayed on the implementation on every run
+    for k in known:
+        if k.get("kind") == "finding" and k.get("property") == pid and k.get("witness") and hasattr(mod, "replay"):
+            try:
+                ok, _msg = mod.replay(k["witness"])
+            except Exception:  # noqa: BLE001
+                ok = True
+                log.append(traceback.format_exc())
+            if not ok:
+                line = f"KNOWN-FINDING: property={pid} {k.get('what', '')}"
+                if line not in printed:
+                    print(line)
+                    printed.add(line)
     for k, v in ctx.known_hits:
         line = f"KNOWN-FINDING: property={pid} {k.get('what', '')}"
         if line not in printed:
